@@ -104,8 +104,16 @@ def run(ctx):
         for op in model.initial():
             do(op)
         nops = rnd.choice([10, 20, 40, 60])
-        for step in range(nops):
-            if rnd.random() < 0.12:
+        for step in range(nops + 1):
+            if step == nops:
+                # the history ends with a burst now and then, so that what
+                # the last unobserved run of edits did to an index is what
+                # the final answers are computed from
+                if rnd.random() >= 0.4:
+                    break
+                batch = model.gen_burst()
+                ctx.count("histories_ending_with_a_burst")
+            elif rnd.random() < 0.12:
                 batch = model.gen_burst()
             else:
                 batch = [model.gen_edit(allow_pop=False)]
